@@ -260,6 +260,25 @@ def run(ctx):
                 continue
             check_mutation(ctx, r3, f)
 
+    # sharing a resource is an owner-only operation as well
+    mp = prog.func('mistral.api.controllers.v2.member.MembersController.'
+                   'post')
+    inner = [x for q, x in prog.funcs.items()
+             if q.startswith(mp.qname + '.<locals>.')]
+    okm = False
+    for g in inner + [mp]:
+        gcfg = ctx.cfg(g)
+        cr = U.calls_in(gcfg, 'create_resource_member')
+        if not cr:
+            continue
+        names = ownership_wrappers(ctx)
+        chk = [n for n, c in U.calls_in(gcfg, *names)]
+        okm = any(gcfg.dominates(k, cr[0][0]) for k in chk)
+    r3.check(okm, ctx.construct(mp, extra='share only by owner'),
+             'a membership is created without checking that the caller '
+             'owns the shared resource (an accepted member could re-share '
+             'the owner\'s private workflow)', ctx.loc(mp))
+
     # ---- R4 forced ownership hook -------------------------------------------
     r4 = ctx.rule('R4', 'project_id listener is attached to every secure '
                   'model', 'AGREE')
@@ -324,6 +343,65 @@ def run(ctx):
                          'admin-only rule', ctx.loc(f, c))
     if n5 < 4:
         raise AnalysisError('C15.R5: only %d all_projects sinks' % n5)
+    c16.insecure_origin(ctx, r5)
+
+    # ---- R7 process-wide caches sit behind a tenant-scoped read ----------------
+    r7 = ctx.rule('R7', 'per-process caches of tenant data are consulted '
+                  'only after a raising tenant-scoped DB read', 'GD')
+    raising = set()
+    for f in dbfuncs:
+        if not f.name.startswith('get_'):
+            continue
+        cfgf = ctx.cfg(f)
+        for x in cfgf.nodes:
+            if x.kind == 'stmt' and isinstance(x.ast, ast.Raise) and \
+                    x.ast.exc is not None and \
+                    'DBEntityNotFoundError' in norm(x.ast.exc):
+                g = cfgf.guards(x)
+                if g and norm(g[0][0]).startswith('not ') and g[0][1]:
+                    raising.add(f.name)
+    if len(raising) < 10:
+        raise AnalysisError('C15.R7: only %d raising getters' % len(raising))
+    n_cache = 0
+    for cq, cnode in sorted(prog.classes.items()):
+        if not prog.class_module[cq].startswith('mistral.actions.'):
+            continue
+        init = prog.funcs.get(cq + '.__init__')
+        if init is None:
+            continue
+        caches = set()
+        for t, st in U.attr_stores(init.node):
+            if dotted(t.value) == 'self' and (
+                    (isinstance(st.value, ast.Call) and
+                     U.call_name(st.value) == 'dict' and not st.value.args)
+                    or (isinstance(st.value, ast.Dict) and
+                        not st.value.keys)):
+                caches.add(t.attr)
+        for m in prog.methods_of(cq):
+            if m.name == '__init__':
+                continue
+            uses = [n for n in own_nodes(m.node)
+                    if isinstance(n, ast.Attribute) and
+                    dotted(n.value) == 'self' and n.attr in caches and
+                    isinstance(n.ctx, ast.Load)]
+            if not uses:
+                continue
+            cfgm = ctx.cfg(m)
+            for x in cfgm.nodes:
+                if x.kind == 'stmt' and isinstance(x.ast, ast.Return) and \
+                        x.ast.value is not None:
+                    n_cache += 1
+                    ok = any(U.node_has_call(cfgm, d, *sorted(raising))
+                             for d in cfgm.dominators(x))
+                    r7.check(ok, ctx.construct(m, x.ast),
+                             'a value that may come from the per-process '
+                             'cache %s is returned without a dominating '
+                             'tenant-scoped read that raises when the row '
+                             'is not visible to the caller (a warm cache '
+                             'would hand another project\'s private data '
+                             'out)' % sorted(caches), ctx.loc(m, x.ast))
+    if n_cache < 1:
+        raise AnalysisError('C15.R7: no cache-backed return found')
 
     # ---- R6 identity ---------------------------------------------------------
     r6 = ctx.rule('R6', 'caller identity comes from the request context',
@@ -417,9 +495,29 @@ def check_mutation(ctx, r3, f):
     if not muts:
         raise AnalysisError('C15.R3: no mutation found in %s' % f.qname)
     names = ownership_wrappers(ctx)
-    checks = [n for n, c in U.calls_in(cfg, *names)]
+    checks = [(n, c) for n, c in U.calls_in(cfg, *names)]
+    # the object(s) whose owner was checked: a local name, or the call that
+    # fetched it (and the key it was fetched by)
+    checked_names, checked_keys = set(), set()
+    for n, c in checks:
+        if c.args and isinstance(c.args[0], ast.Name):
+            checked_names.add(c.args[0].id)
+        elif c.args and isinstance(c.args[0], ast.Call):
+            for a in c.args[0].args:
+                if isinstance(a, ast.Name):
+                    checked_keys.add(a.id)
     for n, c in muts:
-        ok = any(cfg.dominates(k, n) and k is not n for k in checks)
+        ok = any(cfg.dominates(k, n) and k is not n for k, _c in checks)
+        if ok:
+            ok = _same_row(c, checked_names, checked_keys)
+            if not ok:
+                r3.fail(ctx.construct(f, extra=norm(c, 50)),
+                        'the mutation is not addressed to the row whose '
+                        'owner was checked (e.g. delete by name through '
+                        'the secure query also hits a public row of '
+                        'another project with the same name)',
+                        ctx.loc(f, c))
+                continue
         r3.check(ok, ctx.construct(f, extra=norm(c, 50)),
                  'row selected through the public-including secure query is '
                  'mutated without check_db_obj_access (another project can '
@@ -463,3 +561,28 @@ def ownership_wrappers(ctx):
         raise AnalysisError('C15.R3: db.utils.check_db_obj_access is no '
                             'longer recognised as an ownership check')
     return out
+
+
+def _same_row(call, checked_names, checked_keys):
+    """The mutating call addresses the checked row: obj.update(...) /
+    session.delete(obj) on the checked object, or a delete/execute whose
+    filter is `<model>.id == <checked>.id` / `== <id it was fetched by>`."""
+    nm = U.call_name(call)
+    d = U.call_dotted(call)
+    if nm == 'update' and isinstance(call.func.value, ast.Name):
+        return call.func.value.id in checked_names
+    if d == 'session.delete':
+        return bool(call.args) and isinstance(call.args[0], ast.Name) and \
+            call.args[0].id in checked_names
+    if nm == 'update_on_match':
+        return True
+    txt = ' '.join(ast.unparse(call).split())
+    for x in ast.walk(call):
+        if isinstance(x, ast.Compare) and len(x.ops) == 1 and \
+                isinstance(x.ops[0], ast.Eq):
+            l, r = norm(x.left), norm(x.comparators[0])
+            if l.endswith('.id'):
+                if any(r == n + '.id' for n in checked_names) or \
+                        r in checked_keys:
+                    return True
+    return False
